@@ -89,7 +89,8 @@ lyplg_type_validate_leafref(const struct ly_ctx *ctx, const struct lysc_type *ty
         goto cleanup;
     }
 
-    if (ly_ctx_get_options(ctx) & LY_CTX_LEAFREF_LINKING) {
+    if ((ly_ctx_get_options(ctx) & LY_CTX_LEAFREF_LINKING) && targets) {
+        /* no targets if the target was disabled and there is nothing to find */
         for (i = 0; i < targets->count; ++i) {
             rc = lyd_link_leafref_node((struct lyd_node_term *)targets->dnodes[i], (struct lyd_node_term *)ctx_node);
             LY_CHECK_GOTO(rc, cleanup);
